@@ -22,6 +22,9 @@ def histories(alphabet, depth, reduced=None, reduced_depth=0):
     return out
 
 
+AS_NUMPY = [False]
+
+
 def apply_op(m, op):
     name, value = op
     if name == '__multi__':
@@ -29,6 +32,8 @@ def apply_op(m, op):
         for sub in value:
             apply_op(m, sub)
         return
+    if AS_NUMPY[0] and isinstance(value, float):
+        value = np.array([value], dtype=np.float64)[0]      # an element of a float64 array, as a sampler hands it over
     if name == 'star_temperature':
         m.star.temperature = value
     elif name == 'star_radius':
@@ -42,10 +47,11 @@ def evaluate(m, wngrid=None):
     return np.array(g, float), np.array(s, float), np.array(t, float)
 
 
-def run_history(r, hist, build, tag, extra_eval=None, env_apply=None):
+def run_history(r, hist, build, tag, extra_eval=None, env_apply=None, as_numpy=False):
     """build() -> fresh model with caches installed (must call fx.reset_caches itself when the
     opacity tables are process-wide).  The live model and every fresh model share the installed
     opacity tables (they are inputs, not state under test)."""
+    AS_NUMPY[0] = bool(as_numpy)
     # a bystander built before anything happens to the live object: never touched, it must give the same answer
     # at the end as at the beginning (no state shared between objects of one process)
     twin = build()
@@ -93,7 +99,20 @@ def run_history(r, hist, build, tag, extra_eval=None, env_apply=None):
         try:
             got = ev(live)
         except Exception as e:
-            r.check(False, 'history-no-exception', 'history-exception/%s/%s' % (type(e).__name__, sig), exc=repr(e),
+            # the settings reached may describe an invalid model (e.g. mixing ratios above one): then a fresh model with
+            # the same net settings must be rejected in the same way; anything else is a violation
+            try:
+                fresh = build()
+                if env[0] is not None:
+                    env_apply(env[0])
+                for n_ in sorted(net):
+                    apply_op(fresh, [n_, net[n_]])
+                ev(fresh)
+                fexc = None
+            except Exception as e2:
+                fexc = e2
+            r.check(fexc is not None and type(fexc) is type(e), 'history-no-exception',
+                    'history-exception/%s/%s' % (type(e).__name__, sig), exc=repr(e), fresh_exc=repr(fexc),
                     hist=hist[:k + 1])
             return
         fresh = build()
